@@ -109,6 +109,18 @@ def run_case(ctx, index: int, *, salt="proj"):
         info.update(rinfo)
     variants = buildkit.schedule_variants(r, resources, 4)
     sim_seed = r.randrange(1 << 30)
+    found, summary = evaluate(project, variants, sim_seed, info)
+    summary["family"] = family
+    if found:
+        project.explicit = {"project": buildkit.to_json({"scripts": project.scripts, "files": project.files,
+                                                         "env": project.env}),
+                            "variants": buildkit.to_json(variants), "seed": sim_seed, "info": buildkit.to_json(info)}
+    return found, summary, project
+
+
+def evaluate(project, variants, sim_seed, info):
+    """Build `project` from scratch under every configuration, resume the first database unchanged
+    under the second one, compare. Returns `(findings, summary)`."""
     results = []
     resumed = None
     for n, variant in enumerate(variants):
@@ -125,11 +137,11 @@ def run_case(ctx, index: int, *, salt="proj"):
                           f"resuming an unchanged valid database under {variants[1]} gives {resumed.status} "
                           f"{resumed.returncode!r}: " + "; ".join(buildkit.diff_lines(a, b, 4))[:300],
                           {"differences": buildkit.diff_lines(a, b, 10), **info}))
-    summary = {"family": family, "classes": [buildkit.rc_class(x) for x in results],
+    summary = {"classes": [buildkit.rc_class(x) for x in results],
                "commands": sum(len(x.commands) for x in results),
                "distinct_traces": len({tuple(x.trace) for x in results}),
                "rejected": sum(1 for x in results if buildkit.rejected_texts(x)), **info}
-    return found, summary, project
+    return found, summary
 
 
 WALL_LIMIT = {"quick": 240, "thorough": 1500}
@@ -172,8 +184,10 @@ async def search(ctx):
             ctx.finding(Finding(PID, sig, what, {
                 "case": {"verif_seed": ctx.seed, "salt": "proj", "index": i},
                 "project": buildkit.jsonable_project(project), **extra,
+                "explicit": getattr(project, "explicit", None),
                 "how": "props/c02.py run_case(ctx, index): the project is built from scratch with SimDirector under "
-                       "each configuration (buildkit.build_kwargs) and the results are compared",
+                       "each configuration (buildkit.build_kwargs) and the results are compared; `explicit` holds "
+                       "the inputs of props.c02.evaluate",
             }))
         if stop:
             break
@@ -199,7 +213,17 @@ async def replay(ctx, detail):
     case = d.get("case", {})
     os.environ["VERIF_SEED"] = str(case.get("verif_seed", 0))
     ctx.seed = int(case.get("verif_seed", 0))
-    found, summary, _ = await asyncio.to_thread(run_case, ctx, int(case.get("index", 0)), salt=case.get("salt", "proj"))
     sig = detail.get("signature", "")
+    if d.get("explicit"):
+        from simdirector import Project
+
+        e = d["explicit"]
+        data = buildkit.from_json(e["project"])
+        project = Project(scripts=data["scripts"], files=data["files"], env=data["env"])
+        variants = [{k: (tuple(v) if k == "schedule" else v) for k, v in var.items()} for var in e["variants"]]
+        found, summary = await asyncio.to_thread(evaluate, project, variants, e["seed"], e.get("info", {}))
+        return {"reproduced": any(s == sig for s, _, _ in found), "signature": sig, "replayed_from": "explicit data",
+                "found": [[s, w] for s, w, _ in found], "summary": summary}
+    found, summary, _ = await asyncio.to_thread(run_case, ctx, int(case.get("index", 0)), salt=case.get("salt", "proj"))
     return {"reproduced": any(s == sig for s, _, _ in found), "signature": sig,
             "found": [[s, w] for s, w, _ in found], "summary": summary}
